@@ -83,7 +83,10 @@ class Ensemble(Field):
     def __init__(self, member):
         self.member = member
 
-    def __eq___(self, other):
+    def name(self):
+        return "Ensemble(%d)" % self.member
+
+    def __eq__(self, other):
         if self.__class__ != other.__class__:
             return False
         return self.member == other.member
